@@ -551,9 +551,19 @@ func c09child(args []string) int {
 	random.SetGenerator(rand.New(rand.NewSource(1))) // never used by generated scenarios (NoRandom)
 
 	var results []c09roundResult
+	// the cold function phase (c09_coldfn.go) comes before everything else in every second child; the other children
+	// keep finding function-level state cold in their session rounds
+	coldFnCalls, coldFnDiffs := 0, []map[string]any(nil)
+	if child%2 == 1 && child < 1000 {
+		coldFnCalls, coldFnDiffs = c09ColdFunctionPhase(seed, maxN)
+	}
 	for round := 0; round < rounds; round++ {
 		r := fw.NewRand(seed, "C09", child*1000+round)
 		rr := c09roundResult{Round: round, Ops: map[string]int{}}
+		if round == 0 && coldFnCalls > 0 {
+			rr.Ops["cold_function_phase_calls"] = coldFnCalls
+			rr.Mismatches = append(rr.Mismatches, coldFnDiffs...)
+		}
 		o := gen.ScenOpts{NoRandom: true, Deterministic: true, MaxNodes: r.Range(2, 6), Localized: r.Chance(0.5), QueryGroups: true, NoHostileTpl: false}
 		scen := gen.Scen(r, o)
 		scen.Resumes = nil
